@@ -115,6 +115,16 @@ pub fn check(ctx: &mut Ctx) {
     drive(ctx, "big", n, 4000, &decode_big, &check_case);
     let n = ctx.tier.pick(40_000, 400_000);
     drive(ctx, "hosts", n, 300, &decode_hosts, &check_case_hosts);
+    // deterministic slices of the real lists under /repo/data, requests derived from their own rules
+    let (per, len) = ctx.tier.pick((2, 1500), (10, 6000));
+    for fc in super::c08::real_list_slices(ctx, per, len) {
+        let mut reqs = fc.reqs.clone();
+        // the same URLs as other types / from the same site, and perturbed
+        let extra: Vec<_> = reqs.iter().take(20).map(|r| gen::ReqSpec { url: r.url.replace("https://", "https://x"), source: r.url.clone(), rtype: "image".into() }).collect();
+        reqs.extend(extra);
+        let nc = NetCase { rules: fc.rules.into_iter().filter(|r| !r.contains("##") && !r.contains("#@#") && !r.contains("#?#")).collect(), tags: vec![], reqs };
+        crate::run::run_one(ctx, "real-lists", &nc, &check_case);
+    }
 }
 
 pub fn replay(ctx: &mut Ctx, v: &Value) {
